@@ -30,11 +30,30 @@ for f in conflicted():
         body = re.sub(r'(def engines[^\n]*\[\n).*?(\n\])', lambda m: m.group(1) + ',\n'.join('  ' + e for e in ents) + m.group(2), body, count=1, flags=re.S)
         open(f, 'w').write(body)
     elif f == 'known_findings.json':
+        # three-way by (property, id, engine): an entry the branch changed or removed relative to the merge base wins
         a, b = json.loads(show(2, f)), json.loads(show(3, f))
-        ids = {x['id'] for x in a['findings']}
-        a['findings'] += [x for x in b['findings'] if x['id'] not in ids]
-        a['fixed'] += [x for x in b.get('fixed', []) if x not in a['fixed']]
-        json.dump(a, open(f, 'w'), indent=1)
+        try:
+            base = json.loads(show(1, f))
+        except Exception:
+            base = {'findings': [], 'fixed': []}
+        key = lambda x: (x.get('property'), x['id'], x.get('engine'))
+        B0 = {key(x): x for x in base['findings']}
+        Bt = {key(x): x for x in b['findings']}
+        out = []
+        for x in a['findings']:
+            k = key(x)
+            if k in Bt and Bt[k] != B0.get(k):
+                out.append(Bt[k])               # changed (or added on both sides): theirs
+            elif k not in Bt and k in B0 and B0[k] == x:
+                continue                        # removed by the branch, untouched by us
+            else:
+                out.append(x)
+        have = {key(x) for x in a['findings']}
+        out += [x for x in b['findings'] if key(x) not in have and key(x) not in B0]
+        a['findings'] = out
+        gone = [x for x in base.get('fixed', []) if x not in b.get('fixed', [])]
+        a['fixed'] = [x for x in a['fixed'] if x not in gone] + [x for x in b.get('fixed', []) if x not in a['fixed']]
+        json.dump(a, open(f, 'w'), indent=1, ensure_ascii=False)
     elif f in ('MANIFEST.json',) or f.startswith('evidence/'):
         open(f, 'w').write(show(2, f))
     elif f == '.gitignore':
